@@ -469,6 +469,8 @@ def wrap_value(w, rv):
         return ('agg', OPT, 'Some', (rv,), ())
     if w in ('Ok', 'Err'):
         return ('agg', RES, w, (rv,), ())
+    if w == 'Ready':
+        return ('agg', 'std::task::Poll', 'Ready', (rv,), ())
     return rv
 
 
@@ -495,7 +497,9 @@ COMBINATORS = {
     RES + '::ok': ('res', {'Ok': ('pay', 'Some'), 'Err': ('none',)}),
     RES + '::is_ok': ('res', {'Ok': ('bool', True), 'Err': ('bool', False)}),
     RES + '::is_err': ('res', {'Ok': ('bool', False), 'Err': ('bool', True)}),
+    'std::task::Poll::map': ('poll', {'Ready': ('f', 1, 'Ready'), 'Pending': ('same',)}),
 }
+POLL_VARIANTS = (('Ready', '0'), ('Pending', '1'))
 
 
 class Evaluator:
@@ -954,6 +958,24 @@ class Evaluator:
                         self.assign(st, t['dest'], out, t.get('at'), b)
                         b = t['target']
                         continue
+                if name in ('core::bool::then_some', 'std::bool::then_some') and len(args) == 2 and t.get('target') is not None:
+                    # `cond.then_some(v)`: Some(v) iff cond - fork like the `if` it abbreviates when the condition is one we can name
+                    cond = args[0]
+                    if cond[0] == 'const' and cond[1] == 'bool':
+                        val_ = ('agg', 'std::option::Option', 'Some', (args[1],), ()) if cond[2] == '1' else ('agg', 'std::option::Option', 'None', (), ())
+                        self.assign(st, t['dest'], val_, t.get('at'), b)
+                        b = t['target']
+                        continue
+                    r_ = classify_bool_expr(cond)
+                    if r_ is not None:
+                        sF = st.clone()
+                        sF.events.append(Event('br', idx=len(sF.events), label=r_[0], outcome='F' if r_[1] else 'T', val=cond, at=t.get('at'), bb=b, taken=('0', ['0'])))
+                        self.assign(sF, t['dest'], ('agg', 'std::option::Option', 'None', (), ()), t.get('at'), b)
+                        work.append((t['target'], sF))
+                        st.events.append(Event('br', idx=len(st.events), label=r_[0], outcome='T' if r_[1] else 'F', val=cond, at=t.get('at'), bb=b, taken=(None, ['0'])))
+                        self.assign(st, t['dest'], ('agg', 'std::option::Option', 'Some', (args[1],), ()), t.get('at'), b)
+                        b = t['target']
+                        continue
                 if name in ('core::bool::then', 'std::bool::then') and len(args) == 2 and t.get('target') is not None and st.depth < MAX_INLINE_DEPTH:
                     # `cond.then(|| expr)`: an if/else in disguise - fork on the condition, splice the closure on the true side
                     cv = args[1]
@@ -1263,8 +1285,8 @@ class Evaluator:
         # is involved
         if not any(a[0] in ('f', 'f0') and len(args) > a[1] and self.callable_body(st, args[a[1]]) is not None for a in acts.values()):
             return False
-        variants = OPT_VARIANTS if kind == 'opt' else RES_VARIANTS
-        adt = OPT if kind == 'opt' else RES
+        variants = OPT_VARIANTS if kind == 'opt' else (POLL_VARIANTS if kind == 'poll' else RES_VARIANTS)
+        adt = OPT if kind == 'opt' else ('std::task::Poll' if kind == 'poll' else RES)
         if recv[0] == 'agg' and recv[2] in acts:
             branches = [(recv[2], None)]
         else:
